@@ -210,12 +210,15 @@ COMPONENTS = [
               distinct_by_construction=True, shards={'quick': 1, 'thorough': 1},
               describe='the all-classes sweep in a child interpreter started with -O'),
     Component('preludes', optchild.flagged('C19', check),
-              bulk=optchild.make_bulk('C19', ['all-classes'], flags=('',),
-                                      preludes=('bases', 'subclass')),
+              bulk=optchild.make_bulk('C19', ['all-classes'], flags=('', '-bb'),
+                                      preludes=('bases', 'subclass', 'partial',
+                                                'apifuzz')),
               distinct_by_construction=True, shards={'quick': 1, 'thorough': 1},
               describe='the same sweep in child interpreters after an application-style '
-                       'prelude: accessors called on the abstract bases first; '
-                       'application subclasses of every exception / frame class'),
+                       'prelude (accessors on the abstract bases first; application '
+                       'subclasses; an abandoned first iteration of every class; the '
+                       'public helper functions called with 1200 distinct arguments), '
+                       'also with -bb and under foreign locale environments'),
     Component('random', check, strategy=cases_strategy, nontrivial=nontrivial,
               classes=classes, budget={'quick': 13000, 'thorough': 650000},
               describe='random values, random setattr, optional round trip'),
